@@ -134,6 +134,15 @@ func genOutCase(t *rapid.T, forceSigned bool) OutCase {
 			sp.SignC14N = rapid.SampledFrom(h.C14Ns).Draw(t, "c14n")
 		}
 	}
+	if hasKey && rapid.IntRange(0, 7).Draw(t, "mismatchedAlg") == 0 {
+		// an algorithm identifier that does not fit the key (or is unknown): whatever the library falls back
+		// to, what it DECLARES must be what it USES (checked by verification under the declared method)
+		if h.K(signer.Key).Kind == "ecdsa" {
+			sp.SignAlg = rapid.SampledFrom(append(append([]string{}, h.RSAMethods...), "urn:unknown:sigalg")).Draw(t, "badAlg")
+		} else {
+			sp.SignAlg = rapid.SampledFrom(append(append([]string{}, h.ECMethods...), "urn:unknown:sigalg")).Draw(t, "badAlg")
+		}
+	}
 	c := OutCase{SP: sp, Kind: rapid.SampledFrom([]string{"authn-doc", "authn-str", "logout-req", "logout-resp"}).Draw(t, "kind")}
 	c.NameID = genOutText(t, "nameID", false)
 	c.Session = genOutText(t, "session", false)
@@ -142,6 +151,46 @@ func genOutCase(t *rapid.T, forceSigned bool) OutCase {
 		c.Status = genOutText(t, "statusFree", true)
 	}
 	c.ReqID = genOutText(t, "reqID", true)
+	if rapid.IntRange(0, 3).Draw(t, "oneHot") == 0 {
+		// exactly ONE field carries a white-space control character, every other string is plain
+		plain := h.BaseSP()
+		c.SP.IdPSSO, c.SP.IdPSLO, c.SP.ACS, c.SP.SPIssuer, c.SP.IdPIssuer, c.SP.NameIDFormat = plain.IdPSSO, plain.IdPSLO, plain.ACS, plain.SPIssuer, plain.IdPIssuer, ""
+		c.NameID, c.Session, c.Status, c.ReqID = "user@example.com", "_s1", saml2.StatusCodeSuccess, "_r1"
+		if c.SP.RAC != nil {
+			c.SP.RAC = &h.RAC{Comparison: "exact", Contexts: []string{"urn:a"}}
+		}
+		ws := rapid.SampledFrom([]string{"\r", "\n", "\t", "\r\n", "a\rb", " \t "}).Draw(t, "wsChar")
+		if (h.Open("C13", "cr-breaks-own-signature") || h.Open("C15", "cr-not-preserved-in-output")) && strings.Contains(ws, "\r") {
+			ws = "\n"
+		}
+		v := "x" + ws + "y"
+		switch rapid.IntRange(0, 11).Draw(t, "hotField") {
+		case 0:
+			c.SP.IdPSSO = v
+		case 1:
+			c.SP.IdPSLO = v
+		case 2:
+			c.SP.ACS = v
+		case 3:
+			c.SP.SPIssuer = v
+		case 4:
+			c.SP.SPIssuer, c.SP.IdPIssuer = "", v
+		case 5:
+			c.SP.NameIDFormat = v
+		case 6:
+			c.NameID = v
+		case 7:
+			c.Session = v
+		case 8:
+			c.Status = v
+		case 9:
+			c.ReqID = v
+		case 10:
+			c.SP.RAC = &h.RAC{Comparison: v, Contexts: []string{"urn:a"}}
+		case 11:
+			c.SP.RAC = &h.RAC{Comparison: "exact", Contexts: []string{"urn:a", v}}
+		}
+	}
 	c.Signed = hasKey && (forceSigned || rapid.Bool().Draw(t, "signed"))
 	if c.Signed && strings.HasPrefix(c.Kind, "authn") {
 		c.SP.SignRequests = true
@@ -313,9 +362,15 @@ func checkC13(c OutCase) h.Outcome {
 			wantAlg = dsig.ECDSASHA256SignatureMethod
 		}
 	}
-	if f.SigMethod != wantAlg {
-		o.Violation = h.V("declared-algorithm", "SignatureMethod %q, configured %q", f.SigMethod, wantAlg)
-		return o
+	if algFits(c.SP.SignAlg, ec) {
+		if f.SigMethod != wantAlg {
+			o.Violation = h.V("declared-algorithm", "SignatureMethod %q, configured %q", f.SigMethod, wantAlg)
+			return o
+		}
+	} else {
+		// misconfigured algorithm: the library may fall back, but the declared method must be the one used
+		// (the crypto verification below runs under the DECLARED method)
+		o.Classes = append(o.Classes, "alg:misconfigured")
 	}
 	wantC14N := c.SP.SignC14N
 	if wantC14N == "" {
@@ -355,6 +410,23 @@ func checkC13(c OutCase) h.Outcome {
 		}
 	}
 	return o
+}
+
+// algFits reports whether a configured SignAuthnRequestsAlgorithm can be applied to the key type ("" = default).
+func algFits(alg string, ec bool) bool {
+	if alg == "" {
+		return true
+	}
+	list := h.RSAMethods
+	if ec {
+		list = h.ECMethods
+	}
+	for _, m := range list {
+		if m == alg {
+			return true
+		}
+	}
+	return false
 }
 
 // ---- C15 -----------------------------------------------------------------------------------------
